@@ -60,6 +60,9 @@ def scripted_input(answers, log):
         log.append((prompt, a))
         if a == "<EOF>":
             raise EOFError("EOF when reading a line")  # stdin is closed / at end of file: no answer at all
+        if a == "<ERR>":
+            # the answer cannot be read: bytes that are no valid UTF-8 typed on a UTF-8 console
+            raise UnicodeDecodeError("utf-8", b"\xe4\n", 0, 1, "invalid continuation byte")
         if a == "<INT>":
             raise KeyboardInterrupt()  # Ctrl+C while the question is pending: no answer either
         return a
